@@ -122,19 +122,28 @@ def elastic_contract(op, Dl, LR, Dr, RR, tag, first, abstract=False):
     return gen
 
 
-def oracle(op, Dl, LR, Dr, RR):
-    def o(a, b):
+def oracle(op, Dl, LR, Dr, RR, tag=None):
+    def o(a, b, _tr=None):
         lo_l = -(2 ** Dl - 1) if LR.signed else 0
         lo_r = -(2 ** Dr - 1) if RR.signed else 0
         if not (lo_l <= a <= 2 ** Dl - 1 and lo_r <= b <= 2 ** Dr - 1):
             return None
         e = py_exact(op, a, b)
-        return None if e is None else ('value', e)
+        if e is None:
+            return None
+        if _tr is not None and tag is not None:
+            # the declared range of the result type (digits / signedness as the library reports them) must hold the exact value:
+            # if it cannot, no returned rep is acceptable
+            D, sg = fact_value(_tr, 'dig_' + tag), fact_value(_tr, 'sgn_' + tag)
+            if not ((-(2 ** D - 1) if sg else 0) <= e <= 2 ** D - 1):
+                return ('unrepresentable', 'exact result %d is outside the %d-digit %s range of the result type' % (e, D, 'signed' if sg else 'unsigned'))
+        return ('value', e)
+    o.wants_tr = True
     return o
 
 
 INST_Q = [(7, 'i32', 7, 'i32'), (31, 'i32', 31, 'i32'), (8, 'u8', 8, 'u8'), (15, 'i16', 16, 'u16'), (31, 'i32', 32, 'u32'),
-          (1, 'i32', 1, 'i32'), (24, 'i32', 7, 'i8'), (33, 'i32', 30, 'i64')]
+          (1, 'i32', 1, 'i32'), (24, 'i32', 7, 'i8'), (33, 'i32', 30, 'i64'), (7, 'i8', 15, 'i8'), (4, 'i8', 8, 'u8')]
 INST_T = INST_Q + [(63, 'i32', 63, 'i32'), (64, 'u32', 63, 'i32'), (2, 'i8', 7, 'i8'), (16, 'u8', 15, 'i8'), (32, 'u64', 31, 'i32'),
                    (62, 'i64', 1, 'i64'), (7, 'u8', 8, 'i32'), (40, 'i32', 24, 'u32')]
 
@@ -178,7 +187,7 @@ def plan(tier):
             src.append(shim('auto', sname, [(l, 'a'), (r, 'b')],
                             'return cnl::_impl::to_rep(cnl::_impl::from_rep<%s>(a) %s cnl::_impl::from_rep<%s>(b));' % (A, sym, B)))
             solvers = ('cadical', 'kissat') if heavy else ('minisat',)
-            common = dict(shim=sname, shim_types=[l, r], oracle=oracle(op, Dl, LR, Dr, RR), prop=PROP, via=sname,
+            common = dict(shim=sname, shim_types=[l, r], oracle=oracle(op, Dl, LR, Dr, RR, tag), prop=PROP, via=sname,
                           solvers=solvers, timeout=900 if heavy else 120)
             c0 = elastic_contract(op, Dl, LR, Dr, RR, tag, 0, abstract=wide_mul)
             c1 = elastic_contract(op, Dl, LR, Dr, RR, tag, 1, abstract=wide_mul)
@@ -193,6 +202,35 @@ def plan(tier):
             jobs.append(Job('%s.L2.%s' % (PROP, tag), kname, P_WRAPOP, c1, replace=[(P_TAGOP, c1)], layer=2, **common))
             jobs.append(Job('%s.L1.%s' % (PROP, tag), kname, P_TAGOP, c1, replace=[(P_PLAIN, c_plain_abs if wide_mul else c_plain)], layer=1, **common))
             n += 1
+    # shifts by a compile-time constant: elastic_integer<D> << constant<R> has D+R digits and the exact value l * 2^R
+    for (D, nn, R) in [(31, 'i32', 1), (16, 'i32', 16), (7, 'u8', 3), (40, 'i64', 24)] + ([(63, 'i64', 1), (20, 'u32', 34), (15, 'i16', 17)] if thorough else []):
+        N_ = T(nn)
+        LR = rep_of(D, N_)
+        A = 'cnl::elastic_integer<%d, %s>' % (D, cxx(nn))
+        tag = 'shl_%d%s_%d' % (D, nn, R)
+        E = 'decltype(%s{} << cnl::constant<%d>{})' % (A, R)
+        src.append(fact_shim('dig_' + tag, 'cnl::digits_v<%s>' % E))
+        src.append(fact_shim('sgn_' + tag, 'cnl::numbers::signedness_v<%s>' % E))
+        src.append(fact_shim('bits_' + tag, 'sizeof(cnl::_impl::rep_of_t<%s>) * 8' % E))
+        sname = 'vp_' + tag
+        src.append(shim('auto', sname, [(short_of(LR), 'a')],
+                        'return cnl::_impl::to_rep(cnl::_impl::from_rep<%s>(a) << cnl::constant<%d>{});' % (A, R)))
+
+        def c_shl(D, LR, R, tag):
+            def gen(m, fi, tr):
+                Dres, sres, bres = fact_value(tr, 'dig_' + tag), fact_value(tr, 'sgn_' + tag), fact_value(tr, 'bits_' + tag)
+                Res = CT.ty(('i' if sres else 'u') + str(bres))
+                w = max(LR.bits + R, bres) + 4
+                lv = wval(arg_rep(tr, fi, 0), LR, w)
+                ret = wval('$RET', Res, w)
+                ex = '(%s * %s)' % (lv, wconst(2 ** R, w))
+                return Contract(requires=['%s >= %s && %s <= %s' % (lv, wconst(-(2 ** D - 1) if LR.signed else 0, w), lv, wconst(2 ** D - 1, w))],
+                                ensures=['%s == %s' % (ret, ex), '%s >= %s && %s <= %s' % (ret, wconst(-(2 ** Dres - 1) if sres else 0, w), ret, wconst(2 ** Dres - 1, w))],
+                                assigns=[], note='exact l * 2^%d within the digits of the result type' % R)
+            return gen
+        jobs.append(Job('%s.L3.%s' % (PROP, tag), kname, r'^auto cnl::_impl::operator<<<cnl::_impl::wrapper<', c_shl(D, LR, R, tag), via=sname,
+                        shim=sname, shim_types=[short_of(LR)], prop=PROP, timeout=120, layer=3,
+                        oracle=(lambda D, LR, R: lambda a: None if not ((-(2 ** D - 1) if LR.signed else 0) <= a <= 2 ** D - 1) else ('value', a * 2 ** R))(D, LR, R)))
     jobs.append(('LEAVES', kname, P_PLAIN, c_plain_leaf, 'L0.plain_op', dict(solvers=('cadical', 'kissat'), timeout=900)))
     k = Kernel(kname, ''.join(src), [], 'elastic_integer operators')
     meta = {'instantiations': n,
